@@ -197,6 +197,7 @@ def run(F, rep, tier="quick", extra=None, only=None):
     check_attribute_laws(F, rep, S)
     check_into_cam16(F, rep)
     check_partials(F, rep)
+    check_parameter_plumbing(F, rep)
     check_ucs(F, rep)
     return {"level": "other", "explanation": EXPLANATION}
 
@@ -563,6 +564,62 @@ def check_partials(F, rep):
         rep.ob("SHAPE-FWD", "Xyz -> Cam16", ok, alg._short(v, 160), F.loc(b))
     except (Opaque, poly.TooBig, facts.AnchorMissing, KeyError) as ex:
         rep.fail("SHAPE-FWD", "Cam16 <-> Xyz", "uninterpretable: %s" % ex)
+
+
+def check_parameter_plumbing(F, rep):
+    """Viewing conditions reach the model unchanged: into_any_white_point passes the four scalar conditions through and takes the white point
+    from the parameter (static: Wp::get_xyz, dynamic: the stored XYZ); the documented defaults; baking = prepare_parameters of exactly that."""
+    S = Session(F, no_inline={"cam16::math::prepare_parameters"})
+    ctx = S.ctx
+    n = 0
+    try:
+        b = one_body(F, "cam16::parameters::Parameters::<WpParam, T>::", "into_any_white_point")
+        par = Struct("cam16::parameters::Parameters", {"white_point": ctx.sym("wp"), "adapting_luminance": ctx.sym("L_A"), "background_luminance": ctx.sym("Y_b"),
+                                                       "surround": ctx.sym("sur"), "discounting": ctx.sym("disc")})
+        v, _ = S.ev.eval_body(b, [par])
+        ok = isinstance(v, Struct) and all(sym.val_eq(v.fields[k], par.fields[k]) for k in ("adapting_luminance", "background_luminance", "surround", "discounting"))
+        wpa = apps_of(v.fields["white_point"]) if ok else set()
+        ok = ok and any("into_xyz" in a for a in wpa) and "wp" in atoms_of(v.fields["white_point"])
+        rep.ob("SHAPE-FIELD", "Parameters::into_any_white_point", ok, "L_A, Y_b, surround, discounting unchanged; white point = parameter.into_xyz()", F.loc(b))
+        n += 1
+    except (Opaque, poly.TooBig, facts.AnchorMissing, KeyError) as ex:
+        rep.fail("SHAPE-FIELD", "Parameters::into_any_white_point", "uninterpretable: %s" % ex)
+    for name, nargs in (("default_static_wp", 1), ("default_dynamic_wp", 2)):
+        try:
+            bs = [b_ for p_, bl in F.bodies_by_path.items() if p_.startswith("cam16::parameters::Parameters::<") and p_.endswith("::" + name) for b_ in bl]
+            if len(bs) != 1:
+                raise facts.AnchorMissing("%s: %d bodies" % (name, len(bs)))
+            b = bs[0]
+            args = [ctx.sym("L_A")] if nargs == 1 else [ctx.sym("WP"), ctx.sym("L_A")]
+            v, _ = S.ev.eval_body(b, args)
+            ok = isinstance(v, Struct) and sym.val_eq(v.fields["adapting_luminance"], ctx.sym("L_A")) \
+                and isinstance(v.fields["background_luminance"], RatFunc) and v.fields["background_luminance"].equals(ctx.num(Fr(1, 5))) \
+                and isinstance(v.fields["surround"], Struct) and v.fields["surround"].path.endswith("Average") \
+                and isinstance(v.fields["discounting"], Struct) and v.fields["discounting"].path.endswith("Auto")
+            if nargs == 2:
+                ok = ok and sym.val_eq(v.fields["white_point"], ctx.sym("WP"))
+            rep.ob("CONST", "Parameters::" + name, ok, "documented defaults: Y_b = 0.2 (20 percent grey), average surround, automatic discounting; given L_A%s" % (" and white point" if nargs == 2 else ""), F.loc(b))
+            n += 1
+        except (Opaque, poly.TooBig, facts.AnchorMissing, KeyError) as ex:
+            rep.fail("CONST", "Parameters::" + name, "uninterpretable: %s" % ex)
+    # From<Parameters> for BakedParameters
+    try:
+        ims = [im for im in F.find_impls(trait="std::convert::From", self_adt="cam16::parameters::BakedParameters")]
+        ims = [im for im in ims if "Parameters<" in im["trait_args_s"][0]]
+        if len(ims) != 1:
+            raise facts.AnchorMissing("From<Parameters> for BakedParameters: %d impls" % len(ims))
+        b = F.impl_method(ims[0], "from")
+        par = Struct("cam16::parameters::Parameters", {"white_point": ctx.sym("wp"), "adapting_luminance": ctx.sym("L_A"), "background_luminance": ctx.sym("Y_b"),
+                                                       "surround": ctx.sym("sur"), "discounting": ctx.sym("disc")})
+        v, _ = S.ev.eval_body(b, [par])
+        from .c08 import _find_apps
+        calls = _find_apps(v, lambda nm: nm.startswith("cam16::math::prepare_parameters"))
+        ok = isinstance(v, Struct) and len(calls) >= 1 and {"L_A", "Y_b", "sur", "disc", "wp"} <= atoms_of(RatFunc.atom(calls[0], ctx.tab))
+        rep.ob("SHAPE-FWD", "BakedParameters::from(Parameters)", ok, "inner = prepare_parameters(parameters.into_any_white_point())", F.loc(b))
+        n += 1
+    except (Opaque, poly.TooBig, facts.AnchorMissing, KeyError) as ex:
+        rep.fail("SHAPE-FWD", "BakedParameters::from(Parameters)", "uninterpretable: %s" % ex)
+    rep.floor("parameter plumbing obligations", n, 4)
 
 
 def check_ucs(F, rep):
